@@ -46,6 +46,7 @@ def stepBWith (start startFail : TM → TaskDef → TM) (cap : Nat) (b : TMB) (o
     | .startfail d => { b with tm := startFail b.tm d }
     | .stop id => { b with tm := stopTask b.tm id }
     | .delete id => { b with tm := stopTask b.tm id }
+    | .drain => { b with tm := drain b.tm }
     | .write db rp pts =>
       let rp' := if rp == "" then b.tm.defaultRP else rp
       pts.foldl (fun b r => forkPointB cap b (mkPoint db rp' r)) b
